@@ -39,6 +39,21 @@ fn check_bytes(b: &Bufs, what: &str, shown: i64) -> Result<(), String> {
     Ok(())
 }
 
+/// the var-u32 that selects an enum constructor is read by AdtDeserializer itself (its own call site)
+fn read_as_constructor_index(x: u32, encoded: &[u8]) -> Result<(), String> {
+    thread_local! {
+        static META: desert::adt::AdtMetadata = desert::adt::AdtMetadata::new(vec![desert::Evolution::InitialVersion]);
+    }
+    let mut bytes = encoded.to_vec();
+    bytes.extend_from_slice(&[0, 0x5e]);
+    let mut ctx = DeserializationContext::new(&bytes);
+    let got = META.with(|m| desert::adt::AdtDeserializer::new_v0(m, &mut ctx).and_then(|mut d| d.read_constructor_idx()));
+    match got {
+        Ok(v) if v == x && ctx.read_u8().ok() == Some(0) && ctx.read_u8().ok() == Some(0x5e) => Ok(()),
+        other => Err(format!("u32 {x}: as a constructor index (bytes {:02x?}) AdtDeserializer reads {other:?}", encoded)),
+    }
+}
+
 pub fn check_u32(x: u32, b: &mut Bufs) -> Result<(), String> {
     b.vec.clear();
     b.bm.clear();
@@ -53,6 +68,9 @@ pub fn check_u32(x: u32, b: &mut Bufs) -> Result<(), String> {
         return Err(format!("u32 {x}: SizeCalculator {} reference {} minimal {}", sc.size(), b.reference.len(), expected_len(x)));
     }
     let len = b.vec.len();
+    if tails(x).len() > 2 || x % 5 == 0 {
+        read_as_constructor_index(x, &b.vec[..len])?;
+    }
     for &tail in tails(x) {
         b.vec.truncate(len);
         b.vec.extend_from_slice(&TAIL[..tail]);
@@ -407,7 +425,7 @@ pub fn run(cx: &Cx) -> PropResult {
     let mut r = PropResult::new(
         acc,
         "exploration",
-        "values x: +-4096 around every width boundary (2^7, 2^14, 2^21, 2^28, 2^31, 0, 2^32-1) for u32 and for the zig-zag pre-images for i32, the lattice k*65537, and seeded random values of uniformly chosen bit length; thorough tier in the release profile enumerates all 2^32 u32 and all 2^32 i32 values (values of an enumeration are distinct by construction and are counted, not hashed). Oracle: bytes written to Vec<u8> and BytesMut equal the independently computed LEB128 / zig-zag reference, SizeCalculator.size() == that length == minimal length, continuation bit on all but the last byte, SliceInput / OwnedInput / DeserializationContext read the value back and leave the sentinel byte that follows unread. Every value is read with 1 and with 9 further bytes behind it (values within 2 of a width boundary: 0..=16 bytes, with and without continuation bits). Also streams of 1-40 values appended to one Vec<u8> and one BytesMut (fresh, or with 1-9 bytes of initial capacity so that it must grow mid-value) and read back in order through all three inputs from a buffer that continues for 0-16 bytes, written as fields of an evolved record (into the context's chunk buffers) and compared with the reference layout, and read once more from inside the three chunks of that record placed in the middle of a buffer (regions of the context that do not start at offset 0). Non-trivial = needs >= 2 bytes.",
+        "values x: +-4096 around every width boundary (2^7, 2^14, 2^21, 2^28, 2^31, 0, 2^32-1) for u32 and for the zig-zag pre-images for i32, the lattice k*65537, and seeded random values of uniformly chosen bit length; thorough tier in the release profile enumerates all 2^32 u32 and all 2^32 i32 values (values of an enumeration are distinct by construction and are counted, not hashed). Oracle: bytes written to Vec<u8> and BytesMut equal the independently computed LEB128 / zig-zag reference, SizeCalculator.size() == that length == minimal length, continuation bit on all but the last byte, SliceInput / OwnedInput / DeserializationContext read the value back and leave the sentinel byte that follows unread. Every fifth u32 (and every one next to a width boundary) is also read as the constructor index of an enum by AdtDeserializer. Every value is read with 1 and with 9 further bytes behind it (values within 2 of a width boundary: 0..=16 bytes, with and without continuation bits). Also streams of 1-40 values appended to one Vec<u8> and one BytesMut (fresh, or with 1-9 bytes of initial capacity so that it must grow mid-value) and read back in order through all three inputs from a buffer that continues for 0-16 bytes, written as fields of an evolved record (into the context's chunk buffers) and compared with the reference layout, and read once more from inside the three chunks of that record placed in the middle of a buffer (regions of the context that do not start at offset 0). Non-trivial = needs >= 2 bytes.",
     );
     if exhaustive {
         r.exhaustive = Some(true);
